@@ -242,6 +242,32 @@ pub fn check_message(obs: &mut Obs, spec: &Msg31, rng: &mut Rng, shape: u64, cas
             return;
         }
     }
+    // for *every* code, documented or not, the model radial reports the like-named variant of the
+    // status the decoded message itself reports (the two enums correspond one to one by name)
+    {
+        use nexrad_decode::messages::digital_radar_data::RadialStatus as D;
+        let at_decode_level = msg.header.radial_status();
+        let at_model_level = ra.radial_status();
+        let image = match at_decode_level {
+            D::ElevationStart => RadialStatus::ElevationStart,
+            D::IntermediateRadialData => RadialStatus::IntermediateRadialData,
+            D::ElevationEnd => RadialStatus::ElevationEnd,
+            D::VolumeScanStart => RadialStatus::VolumeScanStart,
+            D::VolumeScanEnd => RadialStatus::VolumeScanEnd,
+            D::ElevationStartVCPFinal => RadialStatus::ElevationStartVCPFinal,
+        };
+        if image != at_model_level {
+            obs.violation(
+                "radial status differs between the decoded message and the model radial",
+                format!("code {}: message reports {:?}, model radial reports {:?}", h.status, at_decode_level, at_model_level),
+                replay.clone(),
+            );
+            return;
+        }
+        if h.status > 5 {
+            obs.count("undocumented_status_codes_mapped_consistently", 1);
+        }
+    }
     obs.count("radial_headers_checked", 1);
     let slots: [(&str, usize, Option<&GenericDataBlock>, Option<&MomentData>); 7] = [
         ("REF", 3, msg.reflectivity_data_block.as_ref(), ra.reflectivity()),
@@ -319,12 +345,12 @@ pub fn scale_offset_pairs(rng: &mut Rng, n: usize) -> Vec<(f32, f32)> {
 
 pub fn run(ctx: &mut Ctx) {
     ctx.rule = "a case is one type-31 message (hand-encoded, decoded by the real decoder) converted by radial() and into_radial(); \
-distinct = distinct (block subset, gate class, word size, scale==0) shapes, plus one case per (scale, offset, word size) of the exhaustive raw sweep; oracle = header mapping (numbers, angles, 0.5 x spacing code, status 0..=5 one-to-one, epoch ms from the integer calendar), one value per gate with raw 0/1 sentinels, (raw-offset)/scale in f32 compared by bit pattern, raw when scale is 0, decode-level == model-level, absent stays absent"
+distinct = distinct (block subset, gate class, word size, scale==0) shapes, plus one case per (scale, offset, word size) of the exhaustive raw sweep; oracle = header mapping (numbers, angles, 0.5 x spacing code, status one-to-one (documented codes against the table, every code against the status the message itself reports), epoch ms from the integer calendar), one value per gate with raw 0/1 sentinels, (raw-offset)/scale in f32 compared by bit pattern, raw when scale is 0, decode-level == model-level, absent stays absent"
         .into();
     ctx.exhaustive = Some("all 256 8-bit raws and all 65,536 16-bit raws for each of 200 (scale, offset) pairs (incl. 0, -0, negative, subnormal, huge); all 256 spacing codes; status codes 0..=5".into());
     ctx.assumptions = vec![
         "raw 0/1 with scale 0 may be either the sentinel or the raw value (the statement leaves it open); decode level and model level must still agree".into(),
-        "status codes >= 6 are undocumented and only required not to panic".into(),
+        "status codes >= 6 are undocumented: whichever status the decoded message reports for them, the model radial must report the like-named one; they must not panic".into(),
     ];
     ctx.floor_evaluations = 1_000;
     let seed = ctx.seed;
@@ -391,7 +417,7 @@ distinct = distinct (block subset, gate class, word size, scale==0) shapes, plus
         let subset = if i < 1024 { i as u16 } else { rng.below(1024) as u16 };
         let permute = rng.chance(1, 2);
         let mut spec = gen_msg31(&mut rng, subset, permute, i % 40 == 0);
-        spec.hdr.status = rng.below(6) as u8;
+        spec.hdr.status = if rng.chance(1, 12) { rng.u8() } else { rng.below(6) as u8 };
         // date/time fields at and beyond the edges of the ICD's domain: the collection time is
         // still whatever the header's own accessor says
         if rng.chance(1, 6) {
